@@ -589,10 +589,17 @@ def _loops_back_before(b, tg, call_bb, oks):
     return not ((b.reachable_from(tg, removed_nodes=[call_bb]) | {tg}) & oks)
 
 
+def r12(ctx, facts):
+    """shared with C01 (stated there as R13): the zero-length `empty` value is accepted exactly for the types that have it - bound
+    to a UDT / collection / counter / duration column it is a mismatched value and must be refused"""
+    from .c01 import r13 as c01_r13
+    c01_r13(ctx, facts)
+
+
 def check(ctx):
     facts = inline_view(ctx.facts("default"))
     config = ctx.alias.get("default", "default")   # the thorough tier re-runs this module over `full` and `unstable`
-    for fn in (lambda c, f: r1_r2(c, f, config), r3, r4, r5, r6, r7, r8, r9, r10, r11):
+    for fn in (lambda c, f: r1_r2(c, f, config), r3, r4, r5, r6, r7, r8, r9, r10, r11, r12):
         try:
             fn(ctx, facts)
         except AnchorLost as ex:
